@@ -119,7 +119,7 @@ static void gen_KeypairGen(fc_ctx* c)
 	c->a[1] = fc_out(c, c->n[10] / 2);
 	fc_mark_sec(c, c->a[0], c->n[10] / 4);
 }
-static err_t call_KeypairGen(fc_ctx* c) { return bignKeypairGen(c->a[0], c->a[1], c->a[10], fc_tape, c); }
+static err_t call_KeypairGen(fc_ctx* c) { return bignKeypairGen(c->a[0], c->a[1], c->a[10], FC_RNG(c), c); }
 static int bad_KeypairGen(fc_ctx* c, int j, err_t* exp)
 {
 	if (j < NBADPAR)
@@ -139,7 +139,7 @@ static void gen_KeypairGen96(fc_ctx* c)
 	c->a[1] = fc_out(c, 48);
 	fc_mark_sec(c, c->a[0], 24);
 }
-static err_t call_KeypairGen96(fc_ctx* c) { return bign96KeypairGen(c->a[0], c->a[1], c->a[10], fc_tape, c); }
+static err_t call_KeypairGen96(fc_ctx* c) { return bign96KeypairGen(c->a[0], c->a[1], c->a[10], FC_RNG(c), c); }
 
 /* ------------------------------------------------- KeypairVal / PubkeyVal */
 static void gen_KeypairVal(fc_ctx* c) { load_params(c, 0); make_keypair(c, 0, 11, 12); }
@@ -247,7 +247,7 @@ static void gen_sign_common(fc_ctx* c, int b96)
 	c->a[0] = fc_out(c, b96 ? 34 : 3 * l / 8);
 }
 static void gen_Sign(fc_ctx* c) { gen_sign_common(c, 0); }
-static err_t call_Sign(fc_ctx* c) { return bignSign(c->a[0], c->a[10], c->a[13], c->n[13], c->a[1], c->a[11], fc_tape, c); }
+static err_t call_Sign(fc_ctx* c) { return bignSign(c->a[0], c->a[10], c->a[13], c->n[13], c->a[1], c->a[11], FC_RNG(c), c); }
 static void gen_Sign2(fc_ctx* c)
 {
 	static const size_t tl[] = { 0, 1, 16, 32, 33, 64, 100 };
@@ -278,7 +278,7 @@ static int bad_sign_x(fc_ctx* c, int j, err_t* exp, int with_rng)
 static int bad_Sign(fc_ctx* c, int j, err_t* exp) { return bad_sign_x(c, j, exp, 1); }
 static int bad_Sign2(fc_ctx* c, int j, err_t* exp) { return bad_sign_x(c, j, exp, 0); }
 static void gen_Sign96(fc_ctx* c) { gen_sign_common(c, 1); }
-static err_t call_Sign96(fc_ctx* c) { return bign96Sign(c->a[0], c->a[10], c->a[13], c->n[13], c->a[1], c->a[11], fc_tape, c); }
+static err_t call_Sign96(fc_ctx* c) { return bign96Sign(c->a[0], c->a[10], c->a[13], c->n[13], c->a[1], c->a[11], FC_RNG(c), c); }
 static void gen_Sign296(fc_ctx* c)
 {
 	gen_sign_common(c, 1);
@@ -349,7 +349,7 @@ static void gen_KeyWrap(fc_ctx* c)
 	c->a[2] = fc_below(c, 3) ? fc_pub(c, 16) : 0;
 	c->a[0] = fc_out(c, c->n[10] / 4 + 16 + c->n[1]);
 }
-static err_t call_KeyWrap(fc_ctx* c) { return bignKeyWrap(c->a[0], c->a[10], c->a[1], c->n[1], c->a[2], c->a[12], fc_tape, c); }
+static err_t call_KeyWrap(fc_ctx* c) { return bignKeyWrap(c->a[0], c->a[10], c->a[1], c->n[1], c->a[2], c->a[12], FC_RNG(c), c); }
 static int bad_KeyWrap(fc_ctx* c, int j, err_t* exp)
 {
 	if (j < NBADPAR)
@@ -514,7 +514,7 @@ static void gen_idsign_common(fc_ctx* c)
 	c->a[0] = fc_out(c, 3 * l / 8);
 }
 static void gen_IdSign(fc_ctx* c) { gen_idsign_common(c); }
-static err_t call_IdSign(fc_ctx* c) { return bignIdSign(c->a[0], c->a[10], c->a[13], c->n[13], c->a[2], c->a[4], c->a[5], fc_tape, c); }
+static err_t call_IdSign(fc_ctx* c) { return bignIdSign(c->a[0], c->a[10], c->a[13], c->n[13], c->a[2], c->a[4], c->a[5], FC_RNG(c), c); }
 static void gen_IdSign2(fc_ctx* c)
 {
 	gen_idsign_common(c);
@@ -634,28 +634,28 @@ static int bad_ParamsDec(fc_ctx* c, int j, err_t* exp)
 
 #define D(NAME, GEN, CALL, BAD, FLAGS) { NAME, GEN, CALL, BAD, FLAGS }
 const fc_desc fc_bign[] = {
-	D("bignKeypairGen", gen_KeypairGen, call_KeypairGen, bad_KeypairGen, FC_SECRET),
+	D("bignKeypairGen", gen_KeypairGen, call_KeypairGen, bad_KeypairGen, FC_SECRET | FC_RNGARG),
 	D("bignKeypairVal", gen_KeypairVal, call_KeypairVal, bad_KeypairVal, FC_SECRET),
 	D("bignPubkeyVal", gen_KeypairVal, call_PubkeyVal, bad_PubkeyVal, 0),
 	D("bignPubkeyCalc", gen_PubkeyCalc, call_PubkeyCalc, bad_PubkeyCalc, FC_SECRET),
 	D("bignDH", gen_DH, call_DH, bad_DH, FC_SECRET),
-	D("bignSign", gen_Sign, call_Sign, bad_Sign, FC_SECRET),
+	D("bignSign", gen_Sign, call_Sign, bad_Sign, FC_SECRET | FC_RNGARG),
 	D("bignSign2", gen_Sign2, call_Sign2, bad_Sign2, FC_SECRET),
 	D("bignVerify", gen_Verify, call_Verify, bad_Verify, 0),
-	D("bignKeyWrap", gen_KeyWrap, call_KeyWrap, bad_KeyWrap, FC_SECRET),
+	D("bignKeyWrap", gen_KeyWrap, call_KeyWrap, bad_KeyWrap, FC_SECRET | FC_RNGARG),
 	D("bignKeyUnwrap", gen_KeyUnwrap, call_KeyUnwrap, bad_KeyUnwrap, FC_SECRET | FC_AUTH),
 	D("bignIdExtract", gen_IdExtract, call_IdExtract, bad_IdExtract, FC_KEYOUT),
-	D("bignIdSign", gen_IdSign, call_IdSign, bad_IdSign, FC_SECRET),
+	D("bignIdSign", gen_IdSign, call_IdSign, bad_IdSign, FC_SECRET | FC_RNGARG),
 	D("bignIdSign2", gen_IdSign2, call_IdSign2, bad_IdSign2, FC_SECRET),
 	D("bignIdVerify", gen_IdVerify, call_IdVerify, bad_IdVerify, 0),
 	D("bignParamsVal", gen_ParamsVal, call_ParamsVal, bad_ParamsVal, FC_SLOW),
 	D("bignParamsEnc", gen_ParamsEnc, call_ParamsEnc, 0, 0),
 	D("bignParamsDec", gen_ParamsDec, call_ParamsDec, bad_ParamsDec, 0),
-	D("bign96KeypairGen", gen_KeypairGen96, call_KeypairGen96, bad_KeypairGen, FC_SECRET),
+	D("bign96KeypairGen", gen_KeypairGen96, call_KeypairGen96, bad_KeypairGen, FC_SECRET | FC_RNGARG),
 	D("bign96KeypairVal", gen_KeypairVal96, call_KeypairVal96, bad_KeypairVal, FC_SECRET),
 	D("bign96PubkeyVal", gen_KeypairVal96, call_PubkeyVal96, bad_PubkeyVal, 0),
 	D("bign96PubkeyCalc", gen_PubkeyCalc96, call_PubkeyCalc96, bad_PubkeyCalc, FC_SECRET),
-	D("bign96Sign", gen_Sign96, call_Sign96, bad_Sign, FC_SECRET),
+	D("bign96Sign", gen_Sign96, call_Sign96, bad_Sign, FC_SECRET | FC_RNGARG),
 	D("bign96Sign2", gen_Sign296, call_Sign296, bad_Sign2, FC_SECRET),
 	D("bign96Verify", gen_Verify96, call_Verify96, bad_Verify96, 0),
 	D("bign96ParamsVal", gen_ParamsVal96, call_ParamsVal96, bad_ParamsVal, FC_SLOW),
